@@ -8,7 +8,11 @@ Tie:    (1) TestVerifC10Seq: generated Watch/UnWatch/Shutdown/PoisonPill/parent-
         REAL actors; after every operation: running, tree watchers/watchees, Terminated received per actor — compared
         with the Coq model's macro-steps (stop_seq etc., built from the very steps the theorems quantify over);
         (2) TestVerifC10Tree: the tree's watcher operations on a real tree with real PIDs vs the model;
-        (3) TestVerifC10Race: real goroutines racing Watch/UnWatch against the stop.
+        (3) TestVerifC10Race: real goroutines racing Watch/UnWatch against the stop;
+        (4) TestVerifC10Busy: slow watchers (parked inside Receive) with a backlog in default / segmented / full
+            non-blocking bounded mailboxes while the watched actor stops.
+        Sequences include supervisor-driven restarts (panic -> suspended -> parent's RestartDirective -> re-attach)
+        and Restart of suspended actors, followed by Watch/UnWatch by the parent.
 Oracle: the statement applied by bookkeeping of "who watches whom by the user's calls": on every termination each
         running watcher that did not unwatch gets exactly one new Terminated, everybody else none.
 """
@@ -433,7 +437,7 @@ def run(ctx):
                     "C06: PostStop/freeWatchers run at most once per incarnation (assumed by the model's LSnapshot guard)"]
     ctx.assumptions += ["local watchers only (remote watchers are notified by fire-and-forget RemoteTell, not modelled)",
                         "a Watch that completes after the terminating actor took its watcher snapshot is outside 'exactly one' (stated explicitly, DESIGN 7/C10)",
-                        "the watcher's mailbox accepts the Terminated (system mailbox is unbounded)"]
+                        "the watcher's mailbox accepts the Terminated: it travels on the watcher's unbounded system mailbox (exercised by TestVerifC10Busy with parked watchers and full bounded user mailboxes)"]
     rng = ctx.rng
     # ---- cases
     seq_cases = []
